@@ -247,4 +247,20 @@ def run_check(prop, tier):
     runs = spec(prop, tier)
     cov, violations, internal = collect(prop, tier, runs, t0, deadline)
     cov["bounds"] = {"tier": tier, "runs": len(runs)}
-    return C.finish(prop, tier, LEVEL[prop], cov, violations, ASSUMPTIONS, t0, internal)
+    assumptions = list(ASSUMPTIONS)
+    if prop in ("C02", "C03", "C04", "C05") and not internal:
+        from . import layout_checks
+        lcov, lviol, linternal = layout_checks.run_layout(prop, tier, t0)
+        internal += linternal
+        violations += lviol
+        if lcov:
+            cov.update(lcov)
+            cov["evaluations"] += lcov["layout_cases"]
+            cov["distinct_nontrivial"] += lcov["layout_cases"]
+            cov["traces_validated_against_impl"] += lcov["layout_cases"]
+            cov["samples"] += [{"layout_case": s} for s in lcov["layout_samples"][:4]]
+            cov["rule"] += ("; plus the layout family: every list of <= 2 (thorough: <= 3) logical parameters over kind x "
+                            "(size, AlignAs) x count type, every fixed-size vector, every N and every distribution of varying "
+                            "counts, filled to exactly the declared capacity and budget (each case is a distinct input)")
+            assumptions.append("layout family translation units are compiled with -O0 (4x faster to build); the history runs use -O1")
+    return C.finish(prop, tier, LEVEL[prop], cov, violations, assumptions, t0, internal)
